@@ -62,7 +62,7 @@ def death_sig(e):
     if kind == 'asan:ABRT': kind = 'abort'
     where = '?'; fallback = None
     for m in re.finditer(r'^\s*#\d+ 0x[0-9a-f]+ in (.*)$', t, re.M):
-        line = m.group(1); f = re.split(r'[\s(]', line, 1)[0]
+        line = m.group(1); f = line.split(' /')[0].split('(')[0].strip()
         if '/src/lib/' in line and '/main.cpp' not in line and not f.startswith(SKIP_FRAMES): where = f; break     # first frame inside SoftHSM itself
         if fallback is None and not f.startswith(SKIP_FRAMES) and '/exec/p11x.cpp' not in line: fallback = f
     if where == '?' and fallback: where = fallback
@@ -108,7 +108,7 @@ class Monitor:
         return r
     def call(s, req, cls):
         """send one request; returns the reply.  Raises Died/Hang.  Records violations that do not kill the process."""
-        s.reqs.append(req); r = s.raw(req); rv = r.get('rv', -1)
+        s.reqs.append(req); s.part.count('fn:' + str(req.get('fn'))); r = s.raw(req); rv = r.get('rv', -1)
         if 'error' in r and rv == -1: s.part.inconc('harness: executor rejected a request: %s %s' % (r['error'], json.dumps(req)[:300])); r['rvname'] = 'HARNESS_ERROR'; return r
         r['rvname'] = s.ck.rv(rv)
         if r['rvname'].startswith('CKR_?'): s.part.violation(f"{req['fn']}|{key_class(cls)}|invalid-rv", 'a return value that is not a CKR_* constant', {'rv': rv, 'request': clip(req)})
@@ -126,7 +126,7 @@ def clip(o, n=160):
     return o
 
 # ------------------------------------------------------------------------------------------------ golden token directories
-GOLDEN_TOK0 = [k for k in K.kinds() if k not in ('ec_p384b:pub', 'ec_p384b:priv', 'ec_p521b:pub', 'ec_p521b:priv', 'ed25519b:priv', 'dh1024b:priv', 'des')]
+GOLDEN_TOK0 = [k for k in K.kinds() if k != 'des' and not k.split(':')[0].endswith('b')]     # the '...b' twins are only needed as peer points, not as objects
 GOLDEN_FILE_TOK0 = ['aes128', 'des3', 'generic32', 'rsa1024:pub', 'rsa1024:priv', 'rsa2048:priv', 'ec_p256:pub', 'ec_p256:priv', 'ec_p384:priv', 'ed25519:pub', 'ed25519:priv',
                     'dsa1024:pub', 'dsa1024:priv', 'dh1024:pub', 'dh1024:priv', 'x509', 'data', 'dsa-params']
 GOLDEN_TOK1 = ['aes128', 'generic32', 'rsa1024:pub', 'rsa1024:priv', 'ec_p256:priv', 'data', 'x509']
@@ -251,7 +251,7 @@ def run_sequence(env, seed, part, keep=None):
     """one hostile sequence in its own executor on its own clone of the golden directory"""
     rnd = random.Random(seed); d = os.path.join(env['scratch'], 's%d' % seed); shutil.rmtree(d, ignore_errors=True)
     x = new_exec(env, d, conf=clone_golden(env, d)); mon = Monitor(x, env['ck'], part); cur = ('setup', [], None, [])
-    ncalls = 0; hostile = 0; tagset = set(); depth = {}; hobjs = set(); opkey = {}
+    ncalls = 0; hostile = 0; tagset = set(); depth = {}; hobjs = set(); copies = set(); opkey = {}
     try:
         st = deep_state(mon, env, rnd)
         gen = FG.Gen(rnd, env['ck'], st, K)
@@ -260,6 +260,7 @@ def run_sequence(env, seed, part, keep=None):
             r = mon.call(req, '+'.join(tags) if tags else ('well-formed-after-hostile' if hostile else 'well-formed'))
             gen.observe(req, r); ncalls += 1; hostile += bool(tags)
             if tags and r['rv'] == 0: hobjs.update(h for h in (r.get('h'), r.get('hpub'), r.get('hpriv')) if h)
+            if req['fn'] == 'C_CopyObject' and r['rv'] == 0 and r.get('h'): (hobjs if req.get('o') in hobjs else copies).add(r['h'])
             if r['rv'] == 0 and req['fn'] in FG.INIT_OP and 'key' in req: opkey[req.get('s')] = req['key']
             for t in tags: tagset.add((req['fn'], t))
             part.count('rv:' + r['rvname'])
@@ -271,7 +272,10 @@ def run_sequence(env, seed, part, keep=None):
         if cur[0] in ('setup', 'epilogue'): key, sig = f"{fn}|{'well-formed' if cur[0] == 'setup' else 'well-formed-after-hostile'}|{death_sig(e)}", None
         else:
             q = mon.reqs[-1]; uses = {q.get(f) for f in ('o', 'key', 'wkey', 'ukey')} | {opkey.get(q.get('s'))}
-            key, sig = canonical_death(env, e, fn, cur[1], mon.reqs[:-1], cur[2], cur[3], 'use-of-hostile-object' if (uses & hobjs) else ('well-formed-after-hostile' if hostile else 'well-formed'))
+            # a death while USING an object that a hostile template made (or, on the db back-end, that C_CopyObject damaged) is classified by that, whatever else the dying call carried
+            if uses & hobjs: key, sig = f'{fn}|use-of-hostile-object|{death_sig(e)}', None
+            elif uses & copies: key, sig = f'{fn}|use-of-copied-object|{death_sig(e)}', None
+            else: key, sig = canonical_death(env, e, fn, cur[1], mon.reqs[:-1], cur[2], cur[3], 'well-formed-after-hostile' if hostile else 'well-formed')
         part.violation(key, f'the library terminated the host process inside {fn} ({e.kind()})',
                        {'mode': 'api', 'seed': seed, 'cfg': env['cfg'], 'backend': env['backend'], 'ncalls': env['ncalls'], 'dying_request': clip(mon.reqs[-1] if mon.reqs else None),
                         'tags': cur[1], 'note': e.note, 'stderr_tail': report_head(e), 'trace_tail': [clip(q, 80) for q in mon.reqs[-8:]]})
@@ -279,8 +283,7 @@ def run_sequence(env, seed, part, keep=None):
     except Hang as hg:
         part.count('hangs'); x.kill()
         if str(hg) == 'busy': part.observe('long computation (CPU-busy past the %d s watchdog; not a hang)' % TIMEOUT, {'fn': cur[0], 'tags': cur[1], 'seed': seed}); part.count('busy_timeouts')
-        elif keep is None and rerun_hangs(env, seed): part.violation(f'{cur[0]}|{key_class("+".join(cur[1])) or "well-formed"}|hang', 'a call did not return within %d s (reproduced)' % TIMEOUT, {'mode': 'api', 'seed': seed, 'cfg': env['cfg'], 'backend': env['backend'], 'ncalls': env['ncalls'], 'request': clip(mon.reqs[-1])})
-        else: part.inconc('hang not reproduced, seed %d' % seed)
+        elif True: part.violation(f'{cur[0]}|{key_class("+".join(cur[1])) or "well-formed"}|hang', 'a call did not return within %d s (reproduced)' % TIMEOUT, {'mode': 'api', 'seed': seed, 'cfg': env['cfg'], 'backend': env['backend'], 'ncalls': env['ncalls'], 'request': clip(mon.reqs[-1])})
     finally:
         x.kill()
     part.case(None); part.evaluations += ncalls - 1 if ncalls else 0
@@ -290,12 +293,6 @@ def run_sequence(env, seed, part, keep=None):
     if len(part.samples) < 1: part.samples.append({'mode': 'api', 'seed': seed, 'cfg': env['cfg'], 'backend': env['backend'], 'requests': [clip(q, 64) for q in mon.reqs[-env['ncalls'] - 6:][:10]]})
     if keep is not None: keep['reqs'] = mon.reqs
     shutil.rmtree(d, ignore_errors=True)
-
-def rerun_hangs(env, seed):
-    p = Part(); keep = {}
-    try: run_sequence(dict(env, scratch=env['scratch'] + '/rerun'), seed, p, keep=keep)
-    except Exception: return False
-    return p.counters.get('hangs', 0) > 0
 
 # ------------------------------------------------------------------------------------------------ (a2) directed grids
 # Deterministic enumerations of the hostile-input classes the property text names, so that coverage of e.g. "every parameter
@@ -347,11 +344,13 @@ INIT_FN = {'E': 'C_EncryptInit', 'De': 'C_DecryptInit', 'S': 'C_SignInit', 'Ve':
 DERIVE_T = SECRET_T + [('CKA_KEY_TYPE', 'CKK_GENERIC_SECRET'), ('CKA_DERIVE', True)]
 
 def grid_cells(family, ck, seed, scale):
-    rnd = random.Random(seed * 7919 + hash(family) % 1000 if False else seed * 7919 + sum(map(ord, family))); cells = []; add = lambda tag, detail, f: cells.append((tag, detail, f))
+    rnd = random.Random(seed * 7919 + sum(map(ord, family))); cells = []; add = lambda tag, detail, f: cells.append((tag, detail, f))
     H = FG.Gen(rnd, ck, FG.FState(), K)     # value producers only
     draws = lambda n: max(1, int(n * scale))
+    REP = [k for k in K.kinds() if scale > 1 or k in ('aes128', 'aes256', 'des3', 'des2', 'generic32', 'generic1', 'rsa1024:pub', 'rsa1024:priv', 'rsa2048:priv', 'ec_p256:pub', 'ec_p256:priv', 'ec_p521:pub', 'ec_p384:priv',
+                                                     'ed25519:pub', 'ed25519:priv', 'dsa1024:pub', 'dsa1024:priv', 'dh1024:pub', 'dh1024:priv', 'x509', 'data', 'dsa-params', 'dh-params')]
     if family == 'damaged-key':
-        for kind in K.kinds():
+        for kind in REP:
             base = K.template(kind)
             for attr in [a for a, _ in base if a in KEY_MATERIAL]:
                 for op in ('empty', 'missing', 'zero', 'truncated', 'extended', 'ones', 'one-byte'):
@@ -362,6 +361,32 @@ def grid_cells(family, ck, seed, scale):
                         r = E.c('C_CreateObject', s=E.S, tmpl=E.T(t))
                         if r['rv'] == 0: E.tag = 'use-of-hostile-object'; use_key(E.c, E.ck, E.S, r['h'], use_class(kind), E.haes); E.c('C_GetAttributeValue', s=E.S, o=r['h'], tmpl=[{'t': E.ck[a], 'buf': 4096} for a in ('CKA_CHECK_VALUE', 'CKA_VALUE_LEN', 'CKA_MODULUS_BITS', 'CKA_PUBLIC_KEY_INFO')])
                     add('use-of-hostile-object', f'{kind} {attr}={op}', f)
+    elif family == 'copy-use':      # a well-formed C_CopyObject, then the copy is used like the original (the db back-end's copy is not the original: DESIGN section 4 row 11)
+        for kind in [k for k in K.kinds() if k in GOLDEN_TOK0]:
+            for tok in (False, True):
+                def f(E, kind=kind, tok=tok):
+                    r = E.c('C_CopyObject', s=E.S, o=E.k(kind), tmpl=E.T([('CKA_TOKEN', tok), ('CKA_LABEL', b'copy-of-' + kind.encode())]))
+                    if r['rv'] == 0:
+                        E.tag = 'use-of-copied-object'; use_key(E.c, E.ck, E.S, r['h'], use_class(kind), E.haes); E.c('C_GetAttributeValue', s=E.S, o=r['h'], tmpl=[{'t': E.ck[a], 'buf': 4096} for a in PROBE_ATTRS[:40]])
+                        if tok: E.c('C_DestroyObject', s=E.S, o=r['h'])
+                add('well-formed', f'{kind} token={tok}', f)
+        for kind in ('rsa1024:pub', 'rsa1024:priv'):     # every way of using the copy, one per cell (a cell ends at its first death)
+            for op in (('encrypt', 'encrypt-oaep', 'verify', 'verify-multi', 'wrap') if kind.endswith('pub') else ('sign', 'sign-multi', 'sign-pss', 'decrypt', 'unwrap')):
+                def f(E, kind=kind, op=op):
+                    r = E.c('C_CopyObject', s=E.S, o=E.k(kind), tmpl=E.T([('CKA_TOKEN', False)]))
+                    if r['rv'] != 0: return
+                    E.tag = 'use-of-copied-object'; h = r['h']; S = E.S; c = E.c; M = E.M; ck = E.ck; d = '5a' * 32
+                    if op == 'encrypt' and c('C_EncryptInit', s=S, mech=M('CKM_RSA_PKCS'), key=h)['rv'] == 0: c('C_Encrypt', s=S, data=d, buf=512)
+                    if op == 'encrypt-oaep' and c('C_EncryptInit', s=S, mech=M('CKM_RSA_PKCS_OAEP', {'oaep': {'hash': ck.CKM_SHA_1, 'mgf': ck.CKG_MGF1_SHA1, 'source': 1}}), key=h)['rv'] == 0: c('C_Encrypt', s=S, data=d, buf=512)
+                    if op == 'verify' and c('C_VerifyInit', s=S, mech=M('CKM_SHA256_RSA_PKCS'), key=h)['rv'] == 0: c('C_Verify', s=S, data=d, sig='5a' * 128)
+                    if op == 'verify-multi' and c('C_VerifyInit', s=S, mech=M('CKM_SHA256_RSA_PKCS'), key=h)['rv'] == 0: c('C_VerifyUpdate', s=S, data=d); c('C_VerifyFinal', s=S, sig='5a' * 128)
+                    if op == 'wrap': c('C_WrapKey', s=S, mech=M('CKM_RSA_PKCS'), wkey=h, key=E.haes, buf=512)
+                    if op == 'sign' and c('C_SignInit', s=S, mech=M('CKM_RSA_PKCS'), key=h)['rv'] == 0: c('C_Sign', s=S, data=d, buf=512)
+                    if op == 'sign-multi' and c('C_SignInit', s=S, mech=M('CKM_SHA256_RSA_PKCS'), key=h)['rv'] == 0: c('C_SignUpdate', s=S, data=d); c('C_SignFinal', s=S, buf=512)
+                    if op == 'sign-pss' and c('C_SignInit', s=S, mech=M('CKM_SHA256_RSA_PKCS_PSS', {'pss': {'hash': ck.CKM_SHA256, 'mgf': ck.CKG_MGF1_SHA256, 'slen': 32}}), key=h)['rv'] == 0: c('C_Sign', s=S, data=d, buf=512)
+                    if op == 'decrypt' and c('C_DecryptInit', s=S, mech=M('CKM_RSA_PKCS'), key=h)['rv'] == 0: c('C_Decrypt', s=S, data='00' + '5a' * 127, buf=512)
+                    if op == 'unwrap': c('C_UnwrapKey', s=S, mech=M('CKM_RSA_PKCS'), ukey=h, wrapped='00' + '5a' * 127, tmpl=E.T(UNWRAP_TARGETS[0][1]))
+                add('well-formed', f'{kind} {op}', f)
     elif family == 'unwrap':
         mechs = [('CKM_AES_KEY_WRAP', None, 'aes128'), ('CKM_AES_KEY_WRAP_PAD', None, 'aes128'), ('CKM_AES_CBC_PAD', {'hex': '00' * 16}, 'aes128'), ('CKM_AES_CBC', {'hex': '00' * 16}, 'aes128'), ('CKM_DES3_CBC_PAD', {'hex': '00' * 8}, 'des3'),
                  ('CKM_DES3_CBC', {'hex': '00' * 8}, 'des3'), ('CKM_RSA_PKCS', None, 'rsa1024:priv'), ('CKM_RSA_PKCS_OAEP', {'oaep': {'hash': ck.CKM_SHA_1, 'mgf': ck.CKG_MGF1_SHA1, 'source': 1}}, 'rsa1024:priv'), ('CKM_AES_ECB', None, 'aes128'), ('CKM_AES_GCM', {'gcm': {'iv': '00' * 12, 'tagbits': 128}}, 'aes128')]
@@ -437,7 +462,7 @@ def grid_cells(family, ck, seed, scale):
     elif family == 'datalen':
         for m, (pk, ops, ks) in FG.MECHS.items():
             for opk, side in ([('E', 'pub'), ('De', 'priv')] if 'E' in ops else []) + ([('S', 'priv'), ('Ve', 'pub')] if 'S' in ops else []) + ([('D', '')] if 'D' in ops else []):
-                for n in LEN_GRID:
+                for n in (LEN_GRID if scale > 1 else [0, 1, 15, 16, 17, 32, 33, 117, 118, 128, 129, 245, 256, 257, 4096, 65536]):
                     def f(E, m=m, opk=opk, side=side, n=n):
                         mech = wf_mech(E, H, m); key = right_key(E, m, side); d = '5a' * n
                         init = (lambda: E.c('C_DigestInit', s=E.S, mech=mech)) if opk == 'D' else (lambda: E.c(INIT_FN[opk], s=E.S, mech=mech, key=key))
@@ -469,7 +494,7 @@ def grid_cells(family, ck, seed, scale):
                 def f(E, m=m, t=t): E.c('C_DeriveKey', s=E.S, mech=wf_mech(E, H, m), key=right_key(E, m, 'priv'), tmpl=t)
                 add('tmpl=' + lab, m, f)
     elif family == 'template':
-        for kind in K.kinds():
+        for kind in REP:
             for _ in range(draws(24)):
                 lab, t = H.hostile_template(H_T(ck, K.template(kind)))
                 def f(E, kind=kind, t=t):
@@ -524,6 +549,7 @@ def grid_cells(family, ck, seed, scale):
                 E.c('C_SeedRandom', s=E.S, data=H.blob(n)); E.c('C_GenerateRandom', s=E.S, buf=n); E.c('C_GetOperationState', s=E.S, buf=(None if n == 0 else n))
                 if E.c('C_DigestInit', s=E.S, mech=E.M('CKM_SHA256'))['rv'] == 0: E.c('C_GetOperationState', s=E.S, buf=n); E.c('C_GetOperationState', s=E.S, buf=None); E.c('C_DigestFinal', s=E.S, buf=64)
             add('len:data=' + len_class(n), 'C_SetOperationState/C_SeedRandom/C_GenerateRandom/C_GetOperationState %d' % n, f)
+    elif family == 'misc-state':     # cells that change PINs / tokens / the initialisation state: one executor each
         for n in (0, 1, 3, 4, 8, 31, 32, 255, 256, 257, 1024, 65536):
             for fnname in ('C_Login', 'C_SetPIN', 'C_InitPIN', 'C_InitToken'):
                 def f(E, n=n, fnname=fnname):
@@ -563,8 +589,8 @@ def H_T(ck, pairs):
     """python template -> request entries without needing an executor"""
     g = FG.Gen.__new__(FG.Gen); g.ck = ck; return g.T(K.resolve(ck, list(pairs)))
 
-FAMILIES = ['damaged-key', 'unwrap', 'mechparam', 'keytype', 'datalen', 'derive', 'template', 'misc']
-BATCH = {'damaged-key': 12, 'unwrap': 40, 'mechparam': 30, 'keytype': 40, 'datalen': 12, 'derive': 40, 'template': 20, 'misc': 1}
+FAMILIES = ['damaged-key', 'copy-use', 'unwrap', 'mechparam', 'keytype', 'datalen', 'derive', 'template', 'misc', 'misc-state']
+BATCH = {'damaged-key': 12, 'copy-use': 8, 'unwrap': 40, 'mechparam': 30, 'keytype': 40, 'datalen': 12, 'derive': 40, 'template': 20, 'misc': 6, 'misc-state': 1}
 
 def run_cells(env, family, cells, part, solo=False):
     """cells of one batch share an executor (a fresh session each); a death is re-run alone in a fresh executor to attribute it"""
@@ -588,7 +614,7 @@ def run_cells(env, family, cells, part, solo=False):
             if solo: return [(fn, sig, wit)]
             # the canonical key comes from re-running the cell ALONE in a fresh executor (deterministic heap, no residue of earlier cells)
             alone = run_cells(env, family, [cells[i]], Part(), solo=True)
-            if alone: fn, sig, wit = alone[0]; cls = tag
+            if alone: fn, sig, wit = alone[0]; cls = wit.get('tag', tag)
             else: cls = 'sequence-dependent:' + tag
             part.violation(f'{fn}|{key_class(cls)}|{sig}', f'the library terminated the host process inside {fn} ({sig.split("@")[0]})', wit)
             part.count('deaths'); part.case((family, tag, detail.split(' ')[0])); part.count('grid_cells'); i += 1
@@ -725,6 +751,28 @@ def effect_class(ck, orig, new):
 def coarse_effect(eff):
     """key classes: the file still parses but its attribute set / kinds / values differ ('altered'), it no longer parses ('malformed'), it is empty, or nothing the library reads changed"""
     return 'empty' if eff == 'empty' else 'unchanged' if eff in ('unchanged', 'generation-only') else 'damaged'
+
+def _strtoul16(t):
+    """what strtoul(s, NULL, 16) & (2^31 - 1) makes of a serial, as SlotManager computes slot ids"""
+    t = t.decode('latin-1') if isinstance(t, bytes) else t; t = t.split('\x00')[0]
+    if len(t) >= 8: t = t[-8:]
+    m = re.match(r'\s*([+-]?)(?:0[xX])?([0-9a-fA-F]*)', t); v = int(m.group(2) or '0', 16)
+    if m.group(1) == '-': v = -v
+    return v & ((1 << 64) - 1) & ((1 << 31) - 1)
+def slot_collision(d, be):
+    """True if, as the directory stands, two tokens (or a token and the free slot, whose id is the number of tokens) get the same slot id"""
+    ids = []
+    for t in token_dirs(d):
+        try:
+            if be == 'file':
+                b = open(os.path.join(t, 'token.object'), 'rb').read(); F, R = FG.walk_objfile(b); ser = [b[s0 + 24:e0] for (s0, e0, ty, k) in R if ty == FG.CKA_OS_TOKENSERIAL and k == 3]
+                if not ser or not (R and R[-1][1] == len(b)): continue
+                ids.append(_strtoul16(ser[0]))
+            else:
+                con = sqlite3.connect(os.path.join(t, 'sqlite3.db')); row = con.execute('select value from attribute_binary where type=?', (FG.CKA_OS_TOKENSERIAL,)).fetchone(); con.close()
+                if row and row[0] is not None: ids.append(_strtoul16(bytes(row[0])))
+        except Exception: continue
+    return len(ids) != len(set(ids)) or len(ids) in ids
 
 def token_dirs(d): return sorted(os.path.join(d, 'tokens', t) for t in os.listdir(os.path.join(d, 'tokens')))
 def read_label(tokdir, backend):
@@ -878,9 +926,10 @@ def file_case(env, idx, part):
                 if len(data) <= 2048: info['hex'] = data.hex()
         else:
             tok = r.choice(toks) if r.random() < 0.3 else t0; op = mutate_db(r, os.path.join(tok, 'sqlite3.db')); info['operator'] = op
-            cls = 'db:raw' if op.startswith('raw:') else 'db:schema' if op == 'sql:schema' else 'db:unchanged' if op == 'sql:noop' else 'object:damaged'
+            cls = 'db:unchanged' if op == 'sql:noop' else 'object:damaged'     # the operator (raw bytes / rows / values / schema) stays in the witness; the key class is the effect
     except Exception as e:
         part.inconc('mutation failed: %r' % (e,)); shutil.rmtree(d, ignore_errors=True); return
+    if not cls.startswith('conf:') and slot_collision(d, be): info['mutated'] = cls; cls = 'token:serial-collision'     # classified by effect: whatever produced it, two slots now share an id
     cls = 'file/' + cls
     x = new_exec(env, d, conf=conf); mon = Monitor(x, env['ck'], part); used = 0
     try: used = recovery_probe(mon, env, cls)
@@ -941,7 +990,7 @@ def worker(job):
             try:
                 p = run_item(job, env, item)
                 # a sanitizer death whose stack could not be symbolised (library being rewritten, symboliser starved) has no stable key: run the case again
-                if attempt == 0 and any(k.endswith('@?') and '|asan:' in k for k in p.viol): p = None; continue
+                if attempt == 0 and any((k.endswith('@?') and '|asan:' in k) or k.endswith('|hang') for k in p.viol): p = None; continue   # (a hang must reproduce, too)
                 break
             except Lost as e:
                 p = None; import subprocess
@@ -958,29 +1007,35 @@ def run(ctx):
                 '(b) file fuzz: one structure-aware mutation of object file / token.object / generation / SQLite db / softhsm2.conf / directory layout per case, then a fixed recovery probe in a fresh executor. '
                 'One evaluation = one hostile-sequence call or one mutated-file case; distinct = (entry point, hostile-input tag) pairs actually sent + distinct file-mutation classes; '
                 'violations: Died (ASan, signal, exit/abort/assert), UBSan null/bounds/object-size, non-CKR return value, reproduced hang')
-    cfgs = ctx.q([('asan', 'file', 0.9), ('asan', 'db', 0.1)], [('asan', 'file', 0.4), ('asan', 'db', 0.25), ('botan', 'file', 0.2), ('botan', 'db', 0.15)])
+    cfgs = ctx.q([('asan', 'file', 0.9, True), ('asan', 'db', 0.1, False)], [('asan', 'file', 0.4, True), ('asan', 'db', 0.25, True), ('botan', 'file', 0.2, True), ('botan', 'db', 0.15, True)])   # (build, back-end, share of the random workloads, run the directed grids)
     nseq = ctx.q(2000, 60000); nfile = ctx.q(1500, 40000); ncalls = 30; scale = ctx.q(1.0, 3.0)
     if os.environ.get('C17_SCALE'): f = float(os.environ['C17_SCALE']); nseq = int(nseq * f); nfile = int(nfile * f)
-    ctx.need(*sorted({c for c, _, _ in cfgs}))
+    ctx.need(*sorted({c[0] for c in cfgs}))
     if ctx.replay: return replay(ctx)
     jobs = []; seq0 = ctx.seed * 10000019; file0 = 0
-    for cfg, be, share in cfgs:
+    for cfg, be, share, grids in cfgs:
         base = dict(paths=ctx.paths, hdr=ctx.paths[cfg]['hdr'], cfg=cfg, backend=be, scratch=ctx.scratch, ncalls=ncalls, seed=ctx.seed); base['ck'] = ctx.ck
         ga = ctx.dir(f'golden-api-{cfg}-{be}'); build_golden(dict(base, golden=ga), ga); gf = ctx.dir(f'golden-file-{cfg}-{be}'); build_golden(dict(base, golden=gf), gf, small=True)
         del base['ck']
-        if share >= 0.1:
-            for fam in FAMILIES:
+        for fam in (FAMILIES if grids else ['copy-use']):
+            if True:
                 ncell = len(grid_cells(fam, ctx.ck, ctx.seed, scale)); b = BATCH[fam]
                 for lo in range(0, ncell, b * 4): jobs.append(dict(mode='grid', env=dict(base, golden=ga, scale=scale), items=[(fam, i, min(i + b, ncell, lo + b * 4)) for i in range(lo, min(lo + b * 4, ncell), b)]))
         n = int(nseq * share); items = list(range(seq0, seq0 + n)); seq0 += n
         for i in range(0, n, 20): jobs.append(dict(mode='api', env=dict(base, golden=ga), items=items[i:i + 20]))
-        dirs = directed_items(dict(base, golden=gf, ck=ctx.ck)) if share >= 0.1 else []
+        dirs = directed_items(dict(base, golden=gf, ck=ctx.ck))
         n = max(0, int(nfile * share) - len(dirs)); items = dirs + list(range(file0, file0 + n)); file0 += n
         for i in range(0, n, 12): jobs.append(dict(mode='file', env=dict(base, golden=gf), items=items[i:i + 12]))
     random.Random(ctx.seed).shuffle(jobs)
     for part in pmap(worker, jobs, ctx.nproc): ctx.merge(part)
-    ctx.extra['entry_points_called'] = len({k[0] for k in ctx.distinct if isinstance(k, tuple)} | set())
-    ctx.extra['configs'] = ['%s/%s' % (c, b) for c, b, _ in cfgs]
+    for prefix, name in (('fn:', 'calls_per_entry_point'), ('rv:', 'return_codes'), ('mut:', 'file_mutation_targets'), ('worker_s:', 'worker_seconds'), ('grid:', 'grid_cells_per_family'), ('api_seq_with_active_', 'sequences_with_active_operation')):
+        d = {k[len(prefix):]: (round(v, 1) if isinstance(v, float) else v) for k, v in ctx.extra.items() if k.startswith(prefix)}
+        for k in list(ctx.extra):
+            if k.startswith(prefix): del ctx.extra[k]
+        ctx.extra[name] = d
+    called = [f for f in FG.ALL_FNS if ctx.extra['calls_per_entry_point'].get(f, 0) > 0]; ctx.extra['entry_points_called'] = len(called)
+    if len(called) < 68: ctx.inconc('only %d of the 68 entry points were called: missing %s' % (len(called), sorted(set(FG.ALL_FNS) - set(called))))
+    ctx.extra['configs'] = ['%s/%s%s' % (c[0], c[1], ' (+grids)' if c[3] else '') for c in cfgs]
     ctx.assumptions += ['every pointer argument references a block of at least the stated size (lengths only lie downwards; enforced by the executor too); NULL only for size queries, pTemplate with count 0, pPin/pData/pParameter with length 0',
                         'UBSan categories other than null-pointer load/store/member access, bounds and object-size are observations (listed under observations), not violations',
                         'where an abort has no sanitizer stack (exit() from the exception barrier) the death location is "?"',
@@ -991,7 +1046,12 @@ def replay(ctx):
     w = json.load(open(ctx.replay))['witness']; cfg = w['cfg']; be = w['backend']; ctx.need(cfg)
     env = dict(paths=ctx.paths, hdr=ctx.paths[cfg]['hdr'], ck=ctx.ck, cfg=cfg, backend=be, scratch=ctx.scratch, ncalls=w.get('ncalls', 30), seed=w['seed'])
     g = ctx.dir('golden'); env['golden'] = g; build_golden(env, g, small=(w['mode'] == 'file')); part = Part()
-    if w['mode'] == 'api': run_sequence(env, w['seed'], part)
+    if w['mode'] == 'grid':
+        env['scale'] = 3.0 if ctx.tier == 'thorough' else 1.0
+        cells = [c for sc in (1.0, 3.0) for c in grid_cells(w['family'], ctx.ck, w['seed'], sc) if c[1] == w['cell']][:1]
+        r = run_cells(env, w['family'], cells, part, solo=True)
+        for fn, sig, wit in r: part.violation(f"{fn}|{key_class(wit.get('tag', '?'))}|{sig}", 'reproduced', wit)
+    elif w['mode'] == 'api': run_sequence(env, w['seed'], part)
     else: file_case(env, tuple(w['index']) if isinstance(w['index'], list) else w['index'], part)
     ctx.merge(part); ctx.case('replay', True); ctx.case('replay2', True)
     for k, (what, wit) in part.viol.items(): print('REPLAY reproduced:', k); print((wit or {}).get('stderr_tail', '')[-1500:])
